@@ -2521,6 +2521,13 @@ impl<'a> Socket<'a> {
             // can't actually do anything.
             self.timer.set_for_idle(cx.now(), self.keep_alive);
 
+            // The rewound data cannot be sent into a closed window, so nothing below
+            // would re-arm a timer: keep probing the window instead of going silent.
+            if self.remote_win_len == 0 && !self.tx_buffer.is_empty() {
+                let delay = self.rtte.retransmission_timeout();
+                self.timer.set_for_zero_window_probe(cx.now(), delay);
+            }
+
             // Inform RTTE, so that it can avoid bogus measurements.
             self.rtte.on_retransmit();
         }
